@@ -52,6 +52,8 @@ def check(repo, col, tier):
         raise AnalysisError("Module.step: solver arguments not found")
     kw_ = {k.value: ex_.term(v) for k, v in zip(d_.keys, d_.values) if isinstance(k, ast.Constant)}
     c01_solver.current_terms(repo, col, "R-C09-units", st_, ex_, kw_, d_)
+    col.rule("R-C09-interface", "every synapse type implements update_states / compute_current with the interface's parameter order", 4)
+    _interface(repo, col)
     col.rule("R-C09-select", "a synapse-type name selects the view's synapses of that type by their global edge index", 3)
     c11._named(repo, col, "R-C09-select")
     col.rule("R-C09-rows", "synapse parameters are written only to the selected synapses of the type that has the parameter", 6)
@@ -76,16 +78,25 @@ def _gather_role(t: T):
 def _roles(repo, col, cl, name, R="R-C09-roles", RS="R-C09-space"):
     fi = repo.method("Network", name)
     ex = idx.expander(repo, fi)
-    # grouping: sort=False
-    gb = [c for c in ex.calls if isinstance(c.func, ast.Attribute) and c.func.attr == "groupby"]
-    ok = bool(gb) and all(any(k.arg == "sort" and isinstance(k.value, ast.Constant) and k.value.value is False for k in c.keywords)
-                          and c.args and isinstance(c.args[0], ast.Constant) and c.args[0].value == "type" for c in gb)
+    from sa.terms import fuse_comprehensions as _fuse
+
+    def N(t):
+        """normal form: helpers of the class / module that only compute a value are looked through, unpacked tuples resolved"""
+        return _fuse(idx.inline(repo, fi, t))
+    # grouping: sort=False -- every groupby that the pre/post index lists and the type names go through
+    gbs = {}
+    for c in ex.calls:
+        for x in N(ex.term(c)).walk():
+            if x.op == "mcall" and x.name == "groupby":
+                gbs[x.key()] = x
+    ok = bool(gbs) and all(len(x.args) >= 2 and x.args[1].op == "const" and x.args[1].name == "type" and
+                           x.kw.get("sort") is not None and x.kw["sort"].op == "const" and x.kw["sort"].name is False for x in gbs.values())
     col.check(ok, RS, fi, f"{name}: edges grouped by type in table order", "groupby('type', sort=False)",
-              "the grouping by synapse type may reorder types relative to the per-type parameter arrays", node=gb[0] if gb else fi.node)
+              "the grouping by synapse type may reorder types relative to the per-type parameter arrays", node=fi.node)
     asserts = [n for n in ast.walk(fi.node) if isinstance(n, ast.Assert)]
     ok = False
     for a in asserts:
-        tt = ex.term(a.test)
+        tt = N(ex.term(a.test))
         if tt.op == "cmp" and tt.name == "==" and len(tt.args) == 2:
             has_name = [T.find(x, lambda y: y.op == "attr" and y.name == "_name") is not None for x in tt.args]
             from_groups = [T.find(x, lambda y: y.op == "mcall" and y.name == "groupby") is not None for x in tt.args]
@@ -95,7 +106,7 @@ def _roles(repo, col, cl, name, R="R-C09-roles", RS="R-C09-space"):
     # index spaces of every gather of a node array
     n_sp = 0
     for kind, arr, ix, node in idx.gather_sites(ex):
-        if arr.op == "sub" and arr.args[1].op == "const" and arr.args[1].name in ("v", "radius", "length") and _col_of(ix):
+        if arr.op == "sub" and arr.args[1].op == "const" and arr.args[1].name in ("v", "radius", "length") and _col_of(N(ix)):
             n_sp += idx.check_site(repo, col, cl, RS, fi, kind, arr, ix, node, kcs=("node",))
     if n_sp == 0:
         raise AnalysisError(f"{name}: no gather of node arrays with pre/post indices found")
@@ -106,7 +117,7 @@ def _roles(repo, col, cl, name, R="R-C09-roles", RS="R-C09-space"):
         fi_sig = repo.method("IonotropicSynapse", "update_states").params  # self, states, delta_t, pre_voltage, post_voltage, params
         pos = {p: i - 1 for i, p in enumerate(fi_sig)}
         for pname, want in (("pre_voltage", "pre"), ("post_voltage", "post")):
-            a = ex.term(call.args[pos[pname]])
+            a = N(ex.term(call.args[pos[pname]]))
             roles = _gather_role(a)
             col.check(roles == {("v", want)}, R, fi, f"update_states: {pname} is the voltage at the {want}synaptic compartment",
                       f"voltages[{want}_inds]", f"argument `{pname}` is {a.short(100)} (roles {roles})", node=call)
@@ -129,7 +140,7 @@ def _roles(repo, col, cl, name, R="R-C09-roles", RS="R-C09-space"):
     sig = repo.method("IonotropicSynapse", "compute_current").params  # self, states, pre_voltage, post_voltage, params
     pos = {p: i - 1 for i, p in enumerate(sig)}
     for pname, want in (("pre_voltage", "pre"), ("post_voltage", "post")):
-        a = ex.term(vm.args[pos[pname]])
+        a = N(ex.term(vm.args[pos[pname]]))
         roles = _gather_role(a)
         col.check(roles == {("v", want)}, R, fi, f"compute_current: {pname} is the voltage at the {want}synaptic compartment",
                   f"stack([voltages[{want}_inds], voltages[{want}_inds] + diff])", f"argument `{pname}` is {a.short(100)} (roles {roles})", node=vm)
@@ -144,7 +155,7 @@ def _roles(repo, col, cl, name, R="R-C09-roles", RS="R-C09-space"):
     if conv is None:
         raise AnalysisError("_synapse_currents no longer converts the point-process current")
     for i, key in ((1, "radius"), (2, "length")):
-        a = ex.term(conv.args[i])
+        a = N(ex.term(conv.args[i]))
         roles = _gather_role(a)
         col.check(roles == {(key, "post")}, R, fi, f"area conversion uses the {key} of the postsynaptic compartment",
                   f"params['{key}'][post_inds]",
@@ -153,7 +164,7 @@ def _roles(repo, col, cl, name, R="R-C09-roles", RS="R-C09-space"):
     gs = next((c for c in ex.calls if isinstance(c.func, ast.Name) and c.func.id == "gather_synapes"), None)
     if gs is None:
         raise AnalysisError("_synapse_currents no longer calls gather_synapes")
-    a1 = ex.term(gs.args[1])
+    a1 = N(ex.term(gs.args[1]))
     col.check(_col_of(a1) == "post", R, fi, "currents are scattered to the postsynaptic compartments", "gather_synapes(n, post_inds, ...)",
               f"scatter index is {a1.short(80)}", node=gs)
     a0 = ex.term(gs.args[0])
@@ -165,6 +176,13 @@ def _roles(repo, col, cl, name, R="R-C09-roles", RS="R-C09-space"):
         T.find(st[0].value, lambda x: x.op == "callv") is not None
     col.check(ok, R, fi, "states['i_<name>'] holds the unperturbed per-synapse current", "synapse_currents[0]",
               f"stored {st[0].value.short(80) if st else None}", node=st[0].node if st else fi.node)
+
+
+def _interface(repo, col, R="R-C09-interface"):
+    """The network calls update_states / compute_current of EVERY synapse type positionally, with the argument order of the
+    base class `Synapse` (sibling implementations of one interface must agree, Engler et al.)."""
+    from . import kin
+    kin.interface_agreement(repo, col, R, "Synapse", ("update_states", "compute_current"), 4)
 
 
 def _snippet_eval(repo, fi, names, env):
